@@ -1530,18 +1530,41 @@ func runMroWalkExhaustive(c *Ctx, r *Rep) {
 		})
 		loops := 0
 		ast.Inspect(fd.Body, func(nd ast.Node) bool {
-			rs, ok := nd.(*ast.RangeStmt)
-			if !ok {
-				return true
+			isMroExpr := func(e ast.Expr) bool {
+				switch y := unparen(e).(type) {
+				case *ast.SelectorExpr:
+					return y.Sel.Name == "Mro"
+				case *ast.Ident:
+					return mroAlias[info.Uses[y]]
+				}
+				return false
 			}
-			isMro := false
-			switch y := unparen(rs.X).(type) {
-			case *ast.SelectorExpr:
-				isMro = y.Sel.Name == "Mro"
-			case *ast.Ident:
-				isMro = mroAlias[info.Uses[y]]
+			var rs struct {
+				Body *ast.BlockStmt
+				pos  token.Pos
 			}
-			if !isMro {
+			switch x := nd.(type) {
+			case *ast.RangeStmt:
+				if !isMroExpr(x.X) {
+					return true
+				}
+				rs.Body, rs.pos = x.Body, x.Pos()
+			case *ast.ForStmt:
+				// the same walk written with an index: for i := 0; i < len(mro); i++
+				over := false
+				if x.Cond != nil {
+					ast.Inspect(x.Cond, func(k ast.Node) bool {
+						if call, ok := k.(*ast.CallExpr); ok && exprStr(call.Fun) == "len" && len(call.Args) == 1 && isMroExpr(call.Args[0]) {
+							over = true
+						}
+						return true
+					})
+				}
+				if !over {
+					return true
+				}
+				rs.Body, rs.pos = x.Body, x.Pos()
+			default:
 				return true
 			}
 			loops++
@@ -1629,7 +1652,7 @@ func runMroWalkExhaustive(c *Ctx, r *Rep) {
 				return true
 			})
 			n++
-			pos := rs.Pos()
+			pos := rs.pos
 			if badPos != token.NoPos {
 				pos = badPos
 			}
